@@ -862,18 +862,16 @@ def shape_gate(P, R, b):
     # "<mode> matches ([+-][x!]*)+": a prefix with any other character is not a <mode>, the text is an ordinary password
     # (not "<modes> <account> <password>") and nothing of it is stored or forwarded.  In the prefix scanner every
     # character outside the cases it handles leads away from the store.
+    from .. import charparse
     for s in stores[:1]:
         f = s.fn
-        pv = root_var(s.ev['args'][1] if s.ev['k'] == 'call' else s.ev.get('rhs'))
-        pv = pv['name'] if pv is not None else None
-        sw = [b0 for b0 in f.reachable_blocks() if any(e.label == 'case' for e in f.out[b0]) and f.term_cond(b0) is not None and any(is_var(x, pv) for x in walk(f.term_cond(b0)))]
-        for b0 in sw:
-            dflt = [e for e in f.out[b0] if e.label == 'default']
-            listed = sorted({v for e in f.out[b0] if e.label == 'case' for v in (e.vs or [])})
-            doc = {ord('+'), ord('-'), ord('x'), ord('!'), 0, 32}
-            R.ob('C06.GRD.2', set(listed) <= doc, f, 'the mode prefix scanner handles the documented characters only (%s)' % ' '.join(repr(chr(v)) for v in listed), key='pw:mode-alphabet')
-            ok = bool(dflt) and all(s.bid not in f.reach([e.dst]) for e in dflt)
-            R.ob('C06.GRD.2', ok, f, 'a prefix character outside the documented <mode> alphabet keeps the text from being stored or forwarded', key='pw:mode-default')
+        res = charparse.analyse(f, '+-x! ')
+        if res is None:
+            R.broke('C06.GRD.2: the mode prefix is no longer scanned through a character pointer')
+            continue
+        for site, nm in [(s, 'stored')] + [(t, 'forwarded to the query builder') for t in f.calls() if b in P.callees(t, False)]:
+            sts = res['before'].get(site.key, set())
+            R.ob('C06.GRD.2', bool(sts) and not any(st.bad for st in sts), site, 'the password is %s only if every character of its prefix is one of the documented <mode> characters (+ - x !)' % nm, key='pw:%s:mode-alphabet' % nm.split()[0])
     R.floor('C06.GRD.2', 5)
 
 
